@@ -5,7 +5,7 @@ use crate::driver::{OPS_CONST, OPS_PER_BYTE};
 use crate::engine::{guard, Check, Ctx, Failure};
 use crate::gen;
 use crate::io::CountingStream;
-use crate::refmp4::movie::build;
+use crate::refmp4::movie::{build, Movie, Xform};
 use crate::refmp4::parse;
 use crate::{ensure, fail};
 use mp4::Mp4Reader;
@@ -109,17 +109,74 @@ struct File {
     name: String,
     full: Vec<u8>,
     init: Option<Vec<u8>>,
+    /// only cuts at or after this position are explored (0 = all)
+    from: usize,
+}
+
+/// Variants of a movie-header-last file in which every leaf box of the moov subtree in turn is the
+/// very last box of the file (child order is free in moov, trak, mdia, minf, stbl, udta, ilst and
+/// ISO-style meta): a truncation then falls inside that box, whichever table it is.
+fn tail_variants(name: &str, m: &Movie) -> Vec<File> {
+    use crate::refmp4::{cc, Node, Part};
+    const SWAP_PARENTS: [&str; 7] = ["moov", "trak", "mdia", "minf", "stbl", "udta", "ilst"];
+    let b = build(m);
+    let mi = match b.tree.iter().position(|n| n.typ == cc("moov")) {
+        Some(i) if i + 1 == b.tree.len() => i,
+        _ => return vec![],
+    };
+    fn rec(n: &Node, path: &mut Vec<usize>, chain: &mut Vec<Xform>, label: &mut Vec<String>, out: &mut Vec<(String, Vec<Xform>)>) {
+        let kids: Vec<&Node> = n.children().collect();
+        if kids.is_empty() {
+            out.push((label.join("/"), chain.clone()));
+            return;
+        }
+        let free = SWAP_PARENTS.iter().any(|t| n.typ == cc(t)) || (n.typ == cc("meta") && matches!(n.parts.first(), Some(Part::Raw(_))));
+        let last = kids.len() - 1;
+        for (i, k) in kids.iter().enumerate() {
+            if !free && i != last {
+                continue;
+            }
+            if i != last {
+                chain.push(Xform::Swap { path: path.clone(), i, j: last });
+            }
+            path.push(i);
+            label.push(format!("{}{}", String::from_utf8_lossy(&k.typ), i));
+            rec(k, path, chain, label, out);
+            label.pop();
+            path.pop();
+            if i != last {
+                chain.pop();
+            }
+        }
+    }
+    let mut sites = Vec::new();
+    rec(&b.tree[mi], &mut vec![mi], &mut Vec::new(), &mut Vec::new(), &mut sites);
+    let mut out = Vec::new();
+    for (label, chain) in sites {
+        let mut v = m.clone();
+        v.xforms.extend(chain);
+        let vb = build(&v);
+        // start of the last leaf box: walk down the last children
+        let mut from = 0usize;
+        let mut level = parse::walk_lenient(&vb.bytes);
+        while let Some(lastb) = level.pop() {
+            from = lastb.start;
+            level = lastb.children;
+        }
+        out.push(File { name: format!("{}:tail={}", name, label), full: vb.bytes, init: None, from: from.saturating_sub(24) });
+    }
+    out
 }
 
 fn files(ctx: &Ctx) -> Vec<File> {
     let mut v = Vec::new();
     for i in 0..4 {
-        v.push(File { name: format!("sink{}", i), full: build(&adv::kitchen_sink(i)).bytes, init: None });
+        v.push(File { name: format!("sink{}", i), full: build(&adv::kitchen_sink(i)).bytes, init: None, from: 0 });
     }
     for i in 0..2 {
         let b = build(&adv::kitchen_sink_frag(i));
-        v.push(File { name: format!("sinkfrag{}", i), full: b.bytes.clone(), init: None });
-        v.push(File { name: format!("segment{}", i), full: b.segment.clone(), init: Some(b.bytes[..b.init_len].to_vec()) });
+        v.push(File { name: format!("sinkfrag{}", i), full: b.bytes.clone(), init: None, from: 0 });
+        v.push(File { name: format!("segment{}", i), full: b.segment.clone(), init: Some(b.bytes[..b.init_len].to_vec()), from: 0 });
     }
     let mut seed = [0u8; 32];
     seed[..8].copy_from_slice(&ctx.seed.to_le_bytes());
@@ -141,9 +198,9 @@ fn files(ctx: &Ctx) -> Vec<File> {
         let b = build(&m);
         if b.bytes.len() <= maxlen {
             if !m.frags.is_empty() && tries % 2 == 0 {
-                v.push(File { name: format!("genseg{}", tries), full: b.segment.clone(), init: Some(b.bytes[..b.init_len].to_vec()) });
+                v.push(File { name: format!("genseg{}", tries), full: b.segment.clone(), init: Some(b.bytes[..b.init_len].to_vec()), from: 0 });
             } else {
-                v.push(File { name: format!("gen{}", tries), full: b.bytes, init: None });
+                v.push(File { name: format!("gen{}", tries), full: b.bytes, init: None, from: 0 });
             }
         }
     }
@@ -153,18 +210,24 @@ fn files(ctx: &Ctx) -> Vec<File> {
         let opts = gen::TrackOpts { co64: false, fixed_stsz: false, uniform_size: None, uniform_dur: None, has_ctts: false, has_stss: false, sync_mode: 0 };
         let t = gen::assemble_track(1, crate::refmp4::movie::Codec::Hevc { width: 8, height: 8 }, 1000, *b"und", &[raw(100_000, true), raw(70_001, false), raw(65_537, true), raw(9, true)], &opts);
         let m = gen::movie_shell(vec![t]);
-        v.push(File { name: "large-samples".into(), full: build(&m).bytes, init: None });
+        v.push(File { name: "large-samples".into(), full: build(&m).bytes, init: None, from: 0 });
         // the same as fragments, as one stream: a cut moof/mdat pair at the end opens with the earlier fragments
         let mut fm = adv::kitchen_sink_frag(0);
         fm.frags[0].trafs.truncate(1);
         fm.frags[0].trafs[0].samples = vec![crate::refmp4::movie::Sample { size: 90_000, dur: 5, cts: 0, sync: true }, crate::refmp4::movie::Sample { size: 66_000, dur: 5, cts: 0, sync: true }];
         fm.frags.truncate(1);
-        v.push(File { name: "large-fragment-samples".into(), full: build(&fm).bytes, init: None });
+        v.push(File { name: "large-fragment-samples".into(), full: build(&fm).bytes, init: None, from: 0 });
     }
-    v.push(File { name: "minimal.mp4".into(), full: adv::canned("minimal.mp4"), init: None });
-    v.push(File { name: "minimal_init.mp4".into(), full: adv::canned("minimal_init.mp4"), init: None });
-    v.push(File { name: "minimal_fragment.m4s".into(), full: adv::canned("minimal_fragment.m4s"), init: Some(adv::canned("minimal_init.mp4")) });
-    v.push(File { name: "extended_audio_object_type.mp4".into(), full: adv::canned("extended_audio_object_type.mp4"), init: None });
+    // movie header last, each moov leaf box in turn as the last box of the file
+    for i in 0..3 {
+        let mut m = adv::kitchen_sink(i);
+        m.mdat_first = true;
+        v.extend(tail_variants(&format!("sink{}", i), &m));
+    }
+    v.push(File { name: "minimal.mp4".into(), full: adv::canned("minimal.mp4"), init: None, from: 0 });
+    v.push(File { name: "minimal_init.mp4".into(), full: adv::canned("minimal_init.mp4"), init: None, from: 0 });
+    v.push(File { name: "minimal_fragment.m4s".into(), full: adv::canned("minimal_fragment.m4s"), init: Some(adv::canned("minimal_init.mp4")), from: 0 });
+    v.push(File { name: "extended_audio_object_type.mp4".into(), full: adv::canned("extended_audio_object_type.mp4"), init: None, from: 0 });
     v
 }
 
@@ -217,7 +280,7 @@ pub fn run(ctx: &mut Ctx) {
             marks.sort();
             marks.dedup();
         }
-        for cut in 0..f.full.len() {
+        for cut in f.from..f.full.len() {
             if large && cut % 211 != 0 && !marks.iter().any(|m| (*m as i64 - cut as i64).abs() <= 64) {
                 continue;
             }
